@@ -286,7 +286,7 @@ fn cases(tier: Tier) -> Vec<Case> {
                     v.push(Case {
                         desc: format!("children tree={} cause={:?} bcasts={:?} mailbox={}", tree_name(tree), cause, bc, mb.name()),
                         exec: ExecCfg { horizon: 30, cancel: if let Cause::Cancel(j) = cause { Some((root_spawn_index(tree), j)) } else { None }, ..ExecCfg::default() },
-                        bound: if big { Some(if tier == Tier::Quick { 3 } else { 4 }) } else { None },
+                        bound: if big { Some(if tier == Tier::Quick { 5 } else { 7 }) } else { None },
                         scene: Box::new(S { nodes: tree.clone(), cause, bcasts: bc.clone(), mailbox: mb, pid: "C16" }),
                     });
                 }
